@@ -25,14 +25,18 @@ CLASSES = ('VecBase', 'FrozenVec', 'Vec', 'MatrixBase', 'FrozenMatrix', 'Matrix'
 FROZEN_REACHABLE = ('VecBase', 'FrozenVec', 'MatrixBase', 'FrozenMatrix', 'AngleBase', 'FrozenAngle')
 MUTABLE_CTORS = {'Py_Vec', 'Vec', 'Py_Angle', 'Angle', 'Py_Matrix', 'Matrix'}
 FROZEN_CTORS = {'Py_FrozenVec', 'FrozenVec', 'Py_FrozenAngle', 'FrozenAngle', 'Py_FrozenMatrix', 'FrozenMatrix'}
-FRESH_CLASSMETHODS = {'from_angle', 'from_basis', 'from_pitch', 'from_yaw', 'from_roll', 'axis_angle', 'from_angstr',
-                      '_from_raw', 'from_str', 'with_axes'}
-FRESH_METHODS = {'to_angle', 'thaw', 'freeze', 'transpose', 'inverse', 'norm', 'cross', 'forward', 'left', 'up', '_new_copy', '_rotate_angle'}
-# methods that write their receiver / their first argument (the call is then a mutation event in the caller)
-MUT_RECV = {'_mat_mul', '__iadd__', '__isub__', '__imul__', '__itruediv__', '__ifloordiv__', '__imod__', '__imatmul__',
-            'min', 'max', 'localise', 'rotate', 'rotate_by_str', '__setitem__'}
-MUT_ARG0 = {'_vec_rot', '_to_angle'}
-FRESH_USED: set[str] = set()        # names of FRESH_CLASSMETHODS / FRESH_METHODS that the census or the result kinds relied on
+# Names of methods / alternative constructors that return a NEW object in every class that defines them.  Not a list of
+# spellings: computed from the source on every run (derive_fresh_names: least fixpoint over the result kinds read from the
+# return statements, starting from constructor calls and X.__new__ only), so renaming or adding a helper needs no change here.
+FRESH_DERIVED: set[str] = set()
+# Names of methods that write their receiver / their first argument (a call of one is a mutation event in the caller).
+# Computed from the source on every run (derive_mutators: least fixpoint over the census itself - a method writes its
+# receiver when it stores to a slot of self, is an in-place operator, or calls such a method on self), so that renaming
+# `_mat_mul` or adding an in-place helper can neither raise an alarm nor hide a write.
+MUT_RECV: set[str] = set()
+MUT_ARG0: set[str] = set()
+OPERATOR_NAMES = ('add', 'sub', 'mul', 'truediv', 'floordiv', 'mod', 'pow', 'matmul', 'and', 'or', 'xor', 'lshift', 'rshift')
+FRESH_USED: set[str] = set()        # names of FRESH_DERIVED that the census or the result kinds relied on
 
 
 _CONSTS: dict[str, ast.AST] = {}        # module-level literal constants of the file being read (set by angle_sites)
@@ -1153,11 +1157,12 @@ def _origin_of_expr(e: ast.AST, origin_of_name) -> str:
             if f.attr == 'copy' and not e.args:
                 o = _origin_of_expr(f.value, origin_of_name)
                 return {'Self': 'CopyOfSelf', 'Param': 'CopyOfParam', 'Fresh': 'Fresh'}.get(o, 'Unknown')
-            if f.attr in FRESH_CLASSMETHODS or f.attr in FRESH_METHODS:
-                # by name: alternative constructors and methods that always build a new object.  Every name used here
-                # is recorded; the result-kind table must say RFresh for it in every class (obligation
-                # census_fresh_by_name_justified), so `x = self.transpose(); x._ab = ...` is only trusted while
-                # transpose() really returns a new object for frozen receivers too.
+            if f.attr in FRESH_DERIVED:
+                # by name: alternative constructors and methods that build a new object in every class that defines them
+                # (derived from the source, see derive_fresh_names).  Every name used here is recorded; the result-kind
+                # table must say RFresh for it in every class (obligation census_fresh_by_name_justified), so
+                # `x = self.transpose(); x._ab = ...` is only trusted while transpose() really returns a new object for
+                # frozen receivers too.
                 FRESH_USED.add(f.attr)
                 return 'Fresh'
     return 'Unknown'
@@ -1205,42 +1210,81 @@ def _origins(f: ast.FunctionDef, is_method: bool):
     return recv, params, binds, origin_of_name
 
 
-def mutation_events(f: ast.FunctionDef, is_method: bool) -> list[tuple[str, str, int]]:
-    """(origin, what, line) for every write to an object inside f."""
+def mutation_events(f: ast.FunctionDef, is_method: bool, roots: list | None = None) -> list[tuple[str, str, int]]:
+    """(origin, what, line) for every write to an object inside f.  When `roots` is given, (origin, name of the variable
+    the written object was reached through, or None) is appended to it for every event."""
     recv, params, binds, origin_of_name = _origins(f, is_method)
 
-    ev: list[tuple[str, str, int]] = []
+    class _Ev(list):
+        def append(self, e, root=None):          # noqa: A003 - keeps the call sites below unchanged
+            super().append(e)
+            if roots is not None:
+                roots.append((e[0], root.id if isinstance(root, ast.Name) else None))
+    ev = _Ev()
     for node in ast.walk(f):
         if isinstance(node, ast.AugAssign) and isinstance(node.target, ast.Name):
             o = origin_of_name(node.target.id)
             if o == 'Unknown' and node.target.id not in params and node.target.id not in binds:
                 raise TranslateError(f'{f.name}: augmented assignment to unbound name {node.target.id} (line {node.lineno})')
             if isinstance(node.op, ast.MatMult) or o not in ('Param', 'Unknown'):
-                ev.append((o, f'augmented assignment {type(node.op).__name__}', node.lineno))
+                ev.append((o, f'augmented assignment {type(node.op).__name__}', node.lineno), node.target)
             # arithmetic `x += 1` on a parameter/number rebinding a float is not an object write
         for t in _targets(node):
             if isinstance(t, ast.Attribute):
                 o = _origin_of_expr(t.value, origin_of_name) if isinstance(t.value, (ast.Name, ast.Call)) else 'Unknown'
-                ev.append((o, f'store .{t.attr}', t.lineno))
+                ev.append((o, f'store .{t.attr}', t.lineno), t.value)
             elif isinstance(t, ast.Subscript) and isinstance(t.value, ast.Name):
                 o = origin_of_name(t.value.id)
                 if t.value.id in binds and all(isinstance(v, (ast.Dict, ast.List, ast.ListComp, ast.DictComp)) for v in binds[t.value.id] if v is not None) \
                         and None not in binds[t.value.id]:
                     continue          # a local dict/list
-                ev.append((o, 'store [..]', t.lineno))
+                ev.append((o, 'store [..]', t.lineno), t.value)
         if isinstance(node, ast.Call) and isinstance(node.func, ast.Attribute):
             m = node.func.attr
             if m in MUT_RECV and isinstance(node.func.value, (ast.Name, ast.Call)):
                 if m in ('min', 'max') and not isinstance(node.func.value, ast.Name):
                     continue
-                ev.append((_origin_of_expr(node.func.value, origin_of_name), f'call .{m}()', node.lineno))
+                ev.append((_origin_of_expr(node.func.value, origin_of_name), f'call .{m}()', node.lineno), node.func.value)
             elif m in MUT_ARG0:
                 if not node.args:
                     raise TranslateError(f'{f.name}: {m}() without argument (line {node.lineno})')
-                ev.append((_origin_of_expr(node.args[0], origin_of_name), f'arg of .{m}()', node.lineno))
+                ev.append((_origin_of_expr(node.args[0], origin_of_name), f'arg of .{m}()', node.lineno), node.args[0])
         if isinstance(node, ast.Call) and isinstance(node.func, ast.Name) and node.func.id == 'setattr' and node.args:
-            ev.append((_origin_of_expr(node.args[0], origin_of_name), 'setattr', node.lineno))
+            ev.append((_origin_of_expr(node.args[0], origin_of_name), 'setattr', node.lineno), node.args[0])
     return [e for e in ev if e[0] != 'Fresh']
+
+
+def derive_mutators(tree: ast.Module) -> tuple[set[str], set[str]]:
+    """Least fixpoint of `writes its receiver` / `writes its first argument` over all methods of the nine classes
+    (the exec() templates included: `__iOP__` stands for every in-place operator name)."""
+    fns = _class_functions(tree)
+    MUT_RECV.clear()
+    MUT_ARG0.clear()
+    for _ in range(8):
+        recv: set[str] = set()
+        arg0: set[str] = set()
+        for fl in fns.values():
+            for f in fl:
+                if _is_stub(f):
+                    continue
+                roots: list = []
+                mutation_events(f, True, roots)
+                r, params, _, _ = _origins(f, True)
+                first = params[1] if (r is not None and len(params) > 1) else None
+                names = [f.name.replace('OP', o) for o in OPERATOR_NAMES] + [f.name] if 'OP' in f.name else [f.name]
+                if any(o == 'Self' for o, _ in roots):
+                    recv.update(names)
+                if first is not None and any(o == 'Param' and root == first for o, root in roots):
+                    arg0.update(names)
+        if recv == MUT_RECV and arg0 == MUT_ARG0:
+            break
+        if not (recv >= MUT_RECV and arg0 >= MUT_ARG0):
+            raise TranslateError('mutator derivation is not monotone')
+        MUT_RECV.clear(); MUT_RECV.update(recv)
+        MUT_ARG0.clear(); MUT_ARG0.update(arg0 - recv)
+    else:
+        raise TranslateError('mutator derivation did not reach a fixpoint')
+    return set(MUT_RECV), set(MUT_ARG0)
 
 
 def mutation_census(tree: ast.Module) -> list[tuple[str, str, str, str, int]]:
@@ -1401,6 +1445,28 @@ def result_kinds(tree: ast.Module) -> tuple[list[tuple[str, str, str]], dict]:
                 out.append((cls, name, k))
         info.setdefault('all_method_kinds', {})[cls] = dict(table)
     return out, info
+
+
+def derive_fresh_names(tree: ast.Module) -> set[str]:
+    """Least fixpoint: a method name is `fresh` when, in every concrete class that has it, all of its returns are new
+    objects given the names already known to be fresh (round 0: only constructor calls and X.__new__)."""
+    FRESH_DERIVED.clear()
+    for _ in range(8):
+        _, info = result_kinds(tree)
+        by_name: dict[str, list[str]] = {}
+        for t in info['all_method_kinds'].values():
+            for n, k in t.items():
+                by_name.setdefault(n, []).append(k)
+        new = {n for n, ks in by_name.items() if all(k == 'RFresh' for k in ks)}
+        if new == FRESH_DERIVED:
+            break
+        if not new >= FRESH_DERIVED:
+            raise TranslateError('fresh-name derivation is not monotone')
+        FRESH_DERIVED.clear()
+        FRESH_DERIVED.update(new)
+    else:
+        raise TranslateError('fresh-name derivation did not reach a fixpoint')
+    return set(FRESH_DERIVED)
 
 
 def fresh_by_name(all_kinds: dict[str, dict[str, str]]) -> list[tuple[str, str]]:
@@ -1878,6 +1944,9 @@ def translate() -> tuple[str, dict]:
     cfg = format_cfg(tree)
     pcfg = parse_cfg(tree)
     strs = str_templates(tree)
+    info['fresh_names_derived'] = sorted(derive_fresh_names(tree))
+    mr, ma = derive_mutators(tree)
+    info['receiver_mutators_derived'], info['argument_mutators_derived'] = sorted(mr), sorted(ma)
     FRESH_USED.clear()
     muts = mutation_census(tree)
     meths = method_table(tree)
